@@ -1,4 +1,5 @@
 """C15 - intercepted HTTP flows are handed back exactly once, state intact."""
+import asyncio
 import copy
 import gc
 import itertools
@@ -13,7 +14,8 @@ from mitmproxy.http import HTTPFlow
 from mitmproxy.test import tutils
 
 from hippolyzer.lib.base import llsd
-from hippolyzer.lib.proxy.caps import CapType, CapData
+from hippolyzer.lib.base.datatypes import UUID
+from hippolyzer.lib.proxy.caps import CapType, CapData, SerializedCapData
 from hippolyzer.lib.proxy.http_flow import HippoHTTPFlow
 import hippolyzer.lib.proxy.http_proxy as http_proxy
 
@@ -24,19 +26,19 @@ from vlib.runner import hyp_run
 PROPERTY = "C15"
 LEVEL = "fault_enumeration"
 RULE = ("flows of every routing kind (region cap, Seed, EventQueueGet, temporary uploader cap, asset cap, asset wrapper cap, "
-        "proxy-only cap, login, unknown host; injected / browser flags; LLSD, malformed and empty bodies) pushed as request and "
+        "proxy-only cap, login, unknown host, scripted-object reply tagged FirestormBridge with a not-yet-connected session listed before the owner's; injected / browser flags; LLSD, malformed and empty bodies) pushed as request and "
         "response events through MITMProxyEventManager over pickling queues, with ONE deviating behaviour per run placed at each "
         "injection point: addon handle_http_request / handle_http_response hook of 3 addons {raise, take and never release, take "
         "and release after k further events, take + release twice, take twice, inject response, rewrite URL, set metadata, close "
         "the session before releasing}, session / region http_message_handler subscriber raising, message logger raising, "
-        "malformed Seed / EventQueueGet body.  Quick = every (flow kind x injection point x behaviour); thorough = pairs + random "
+        "malformed Seed / EventQueueGet body; optionally an abandoned time-limited taking waiter on the session's HTTP handler whose limit has passed.  Quick = every (flow kind x injection point x behaviour); thorough = pairs + random "
         "programs.  Plus the get_state/from_state law on generated flows and the proxy-side callback pump with corrupt states.  "
         "Non-trivial = run with a deviating behaviour; distinct by program.")
 ASSUMPTIONS = [
     "the mitmproxy child process is not started; its queues are replaced by in-process pickling queues and IPCInterceptionAddon's "
     "callback pump is driven in-process with a stubbed parent-process watcher",
 ]
-FLOORS = {"quick": {"programs": 1200, "taken": 200, "released_later": 150, "hook_raised": 30, "state_law": 500, "pump_runs": 100}}
+FLOORS = {"quick": {"programs": 1200, "taken": 200, "released_later": 150, "hook_raised": 30, "state_law": 500, "pump_runs": 100, "bridge_attributed": 40, "stale_waiter": 40}}
 MANIFEST = {
     "text": "Fault enumeration: one deviating behaviour at every handler / hook point for every flow kind (thorough: pairs), counting "
             "hand-backs on the queue to the HTTP proxy process per event, and comparing the routing metadata that crosses the "
@@ -45,7 +47,7 @@ MANIFEST = {
     "technique": "fault-placement enumeration + Hypothesis programs; exactly-once counting oracle and state-transfer metamorphic law",
 }
 
-FLOW_KINDS = ["region_cap", "seed", "eq", "uploader_temp", "asset_plain", "asset_wrapper", "proxy_only", "login", "unknown"]
+FLOW_KINDS = ["region_cap", "seed", "eq", "uploader_temp", "asset_plain", "asset_wrapper", "proxy_only", "login", "unknown", "bridge"]
 HOOK_BEHAVIOURS = ["raise", "take_never", "take_release_later", "take_release_twice", "take_twice", "inject_response", "rewrite_url",
                    "set_metadata", "take_close_session_release", "return_true", "set_cap_data"]
 POINTS = [("hook", i, stage) for i in range(3) for stage in ("request", "response")] + \
@@ -141,6 +143,25 @@ class Run:
         self.logger = Logger(self)
         self.w = HttpWorld(2, 2, addons=self.addons, logger=self.logger if program.get("logger", True) else None)
         self._setup_caps()
+        if program["kind"] == "bridge":
+            for sx in self.w.sessions:
+                sx.main_region = sx.regions[program.get("pending_at", 0) % len(sx.regions)]     # the avatar is somewhere
+            # a session whose login went through but whose viewer has not connected yet, listed before the established ones
+            pend = self.w.sm.create_session({
+                "session_id": UUID(int=0x1ff), "secure_session_id": UUID(int=0x2ff), "agent_id": UUID(int=0x3ff), "circuit_code": 199,
+                "sim_ip": "10.1.0.9", "sim_port": 13900, "region_x": 1900, "region_y": 1000,
+                "seed_capability": "https://sim-9-0.example.com:12043/cap/seed-9-0"})
+            self.w.sm.sessions.remove(pend)
+            self.w.sm.sessions.insert(program.get("pending_at", 0) % (len(self.w.sm.sessions) + 1), pend)
+        if program.get("stale_waiter"):
+            # somebody waited (taking) for a response on this session with a time limit, gave up early, and the time limit has long passed
+            loop = ensure_loop()
+
+            async def go():
+                fut = self.sess.http_message_handler.wait_for(("*",), timeout=0.01, take=True)
+                fut.cancel()
+                await asyncio.sleep(0.05)
+            loop.run_until_complete(go())
 
     def behaviour_at(self, point):
         return self.faults.get(point)
@@ -205,6 +226,10 @@ class Run:
             hdrs = {"Content-Type": "text/xml"}
             body = b'<?xml version="1.0"?><methodCall><methodName>login_to_simulator</methodName></methodCall>'
             resp_body = b"<?xml version='1.0'?><methodResponse><fault><value><struct></struct></value></fault></methodResponse>"
+        elif kind == "bridge":
+            url = "http://sim-lsl.example.org:12046/cap/0f0f0f0f"
+            method, body = "POST", b"<bridgeURL>x</bridgeURL>"
+            resp_body = b"<bridgeResponse/>"
         else:
             url = "http://unknown.example.org/some/path"
             resp_body = b"hello"
@@ -231,6 +256,7 @@ def run_program(program):
         kind = program["kind"]
         state = flow.get_state()
         pending_release = None
+        bridge_tagged = False
         for stage in ("request", "response"):
             if stage == "response":
                 # the proxy process got the flow back; unless a response was injected the upstream server answers
@@ -241,6 +267,13 @@ def run_program(program):
                 else:
                     f2.response = tutils.tresp(status_code=program.get("status", 200), content=resp_body)
                     f2.response.headers["Content-Type"] = "application/llsd+xml"
+                    if kind == "bridge" and run.sess is not None and not f2.metadata.get("cap_data_ser") and not f2.metadata.get("from_browser") \
+                            and not f2.metadata.get("request_injected"):
+                        # what IPCInterceptionAddon.responseheaders does for a scripted object's reply
+                        f2.response.headers["X-SecondLife-Object-Name"] = "#Firestorm LSL Bridge v2.27"
+                        f2.response.headers["X-SecondLife-Owner-Key"] = str(run.sess.agent_id)
+                        f2.metadata["cap_data_ser"] = SerializedCapData(cap_name="FirestormBridge")
+                        bridge_tagged = True
                 state = f2.get_state()
             run.invoked.clear()
             n_taken_before = len(run.taken)
@@ -337,10 +370,19 @@ def run_program(program):
                 if got_r is not run.region or got_s is not run.sess:
                     out.append(("state:owner-objects", "%s flow rehydrates to region %r / session %r, it belongs to %r / %r" % (
                         kind, got_r, got_s, run.region, run.sess)))
+            if kind == "bridge" and stage == "response" and bridge_tagged and program.get("status", 200) == 200 and run.expect_cap is None \
+                    and run.sess is not None and behaviour != "take_close_session_release":
+                ser2 = back.metadata.get("cap_data_ser")
+                got_b = (ser2.cap_name, ser2.session_id, ser2.region_addr) if ser2 else None
+                want_b = ("FirestormBridge", str(run.sess.id), str(run.sess.main_region.circuit_addr))
+                if got_b != want_b:
+                    out.append(("state:bridge-owner", "scripted-object reply with owner key %s came back attributed to %r, expected %r" % (
+                        run.sess.agent_id, got_b, want_b)))
+                run.counts["bridge_attributed"] += 1
             ser = back.metadata.get("cap_data_ser")
             want = {"region_cap": "FetchInventory2", "seed": "Seed", "eq": "EventQueueGet", "uploader_temp": "UploadBakedTextureUploader",
                     "asset_plain": "ViewerAsset", "asset_wrapper": "GetTextureProxyWrapper", "proxy_only": "HippoOnly", "login": "LoginRequest",
-                    "unknown": None}[kind]
+                    "unknown": None, "bridge": None}[kind]
             if kind == "login" and (program.get("from_browser") or program.get("request_injected")):
                 want = None       # not treated as a login request by design
             got = ser.cap_name if ser else None
@@ -352,7 +394,9 @@ def run_program(program):
                 break
     finally:
         run.close()
-    cls = ["programs"] + [k for k in ("taken", "released_later", "hook_raised") if run.counts[k]]
+    cls = ["programs"] + [k for k in ("taken", "released_later", "hook_raised", "bridge_attributed") if run.counts[k]]
+    if program.get("stale_waiter"):
+        cls.append("stale_waiter")
     return out, cls, run.counts
 
 
@@ -480,6 +524,7 @@ def pump_law(seq):
 def single_programs():
     for kind in FLOW_KINDS:
         yield {"kind": kind, "faults": []}
+        yield {"kind": kind, "faults": [], "stale_waiter": True}
         for point in POINTS:
             behaviours = HOOK_BEHAVIOURS if point[0] == "hook" else ["raise"]
             for b in behaviours:
@@ -502,7 +547,7 @@ PROGRAM = st.fixed_dictionaries({
     "faults": st.lists(st.tuples(st.sampled_from(POINTS).map(list), st.sampled_from(HOOK_BEHAVIOURS)), max_size=3, unique_by=lambda t: tuple(t[0])).map(
         lambda l: [[p, (b if p[0] == "hook" else "raise")] for p, b in l]),
     "later": st.integers(0, 3), "status": st.sampled_from([200, 200, 404, 499]), "request_injected": st.booleans(), "from_browser": st.booleans(),
-    "logger": st.booleans(),
+    "logger": st.booleans(), "stale_waiter": st.integers(0, 7).map(lambda i: i == 0), "pending_at": st.integers(0, 2),
 })
 
 
